@@ -97,7 +97,7 @@ def run_scenario(sc):
     src_pre = _snap(src)
     open(log, "w").close()
     rc, out, err, copia_pid = _run_group(cmd, _env(home, d, log=log))
-    lines = [json.loads(x) for x in open(log) if x.strip()]
+    lines = [json.loads(x) for x in open(log, errors="surrogateescape") if x.strip()]
     mine = [x for x in lines if x["pid"] == copia_pid]
     n_mut = sum(1 for x in mine if x["mut"])
     fin = _snap(dst)
@@ -196,7 +196,7 @@ def run_scenario(sc):
         _restore(dst, pre)
         open(log, "w").close()
         rck, _, _, copia_pid = _run_group(cmd, _env(home, d, log=log, kill=k))
-        kl = [json.loads(x) for x in open(log) if x.strip()]
+        kl = [json.loads(x) for x in open(log, errors="surrogateescape") if x.strip()]
         snap = _snap(dst)
         if sc.get("shrink"):
             shrink()
@@ -226,6 +226,11 @@ def scenarios(root, tier):
         # the source file shrinks between the killed run and the re-run (640 KiB -> 200 000 bytes -> 16 bytes)
         add(f"{d}: source shrinks before the re-run", d, [F("big", 5, 3), F("sub/mid", 6, 0)], jobs=1, max_k=30 if tier == "quick" else None,
             shrink=[("big", 6), ("sub/mid", 1)])
+        if d == "local":
+            # two names that differ in one byte that is not UTF-8 (the remote directions refuse such names): their staging names
+            # differ too, so two jobs can deliver them at once
+            add("local: two multi-chunk files whose names differ in a non-UTF-8 byte", d,
+                [F("raw\udcff.bin", 5, 0), F("raw\udcfe.bin", 7, 0), F("plain", 1, 0)], jobs=2, max_k=30 if tier == "quick" else None)
         if tier == "thorough":
             add(f"{d}: hostile names", d, [F("with space", 1, 2), F("q'uote", 3, 0), F("new\nline", 2, 1), F("sub dir/$x", 5, 0)], jobs=8)
             add(f"{d}: single empty file over existing", d, [F("e", 4, 3)], jobs=1)
